@@ -80,6 +80,22 @@ func genC17(seed uint64, run int, tier string) *drv.Plan {
 	if r.Chance(1, 4) {
 		p.Mode = "multi"
 	}
+	if r.Chance(1, 5) {
+		// random fault sequences over a whole history: 1-4 faults addressed as
+		// (step, kind, per-mille position among that step's calls of the kind)
+		p.Mode = "history"
+		hb := c17Bias(tier)
+		hb.Prune, hb.LVFO, hb.Reopen = 15, 5, 15
+		g2 := drv.NewGen(sim.Sub(seed, "C17-hist", run), hb)
+		p.Config = g2.Config()
+		p.Steps = g2.History()
+		nf := r.Range(1, 4)
+		kinds := []string{sim.KGet, sim.KGet, sim.KHas, sim.KIter, sim.KRIter, sim.KNext, sim.KBSet, sim.KBDel, sim.KBWrite, sim.KBWrite, sim.KBSize}
+		for i := 0; i < nf && len(p.Steps) > 0; i++ {
+			st := p.Steps[r.Intn(len(p.Steps))]
+			p.IOFaults = append(p.IOFaults, sim.Fault{Step: st.ID, Kind: kinds[r.Intn(len(kinds))], N: r.Intn(1000)})
+		}
+	}
 	return p
 }
 
@@ -283,7 +299,167 @@ type c17pos struct {
 	n    int
 }
 
+// execC17History runs a whole history under a random fault sequence: a step
+// during which a fault fired may fail; the handle is then discarded, the store
+// reopened fault-free and it must show the state before or after the step,
+// from which the history continues.
+func execC17History(p *drv.Plan) *Out {
+	w := drv.NewWorld(p.Config)
+	out := &Out{Evals: 1, Probes: map[string]int{"mode.history": 1}, Stats: map[string]int{}, Faults: map[string]int{}}
+	out.Sample = map[string]interface{}{"plan": p.Compact(), "faults": p.IOFaults}
+	if err := w.Open(); err != nil || w.Sim == nil {
+		return out
+	}
+	defer func() { w.Cleanup() }()
+	var tr drv.Tracer
+	byStep := map[int][]sim.Fault{}
+	for _, f := range p.IOFaults {
+		byStep[f.Step] = append(byStep[f.Step], f)
+	}
+	mk := func(s drv.Step, oracle, symptom, site, detail string) *drv.Violation {
+		return &drv.Violation{Prop: "C17", Oracle: oracle, Symptom: symptom, Class: "history/" + s.Op, Site: site, StepID: s.ID, Detail: fmt.Sprintf("history under faults, step %s: %s", s.String(), detail)}
+	}
+	for _, s := range p.Steps {
+		fs := byStep[s.ID]
+		if len(fs) == 0 {
+			if v := w.Apply(s); v != nil {
+				if v.Prop != "C17" {
+					out.Foreign = v
+				} else {
+					out.Violations = append(out.Violations, v)
+				}
+				break
+			}
+			tr.Add(s.ID, "plain")
+			continue
+		}
+		// fault-free execution of the step on a fork: call counts and the state after
+		wf := drv.NewWorld(p.Config)
+		wf.UseSim(w.Sim.Fork())
+		wf.Fast, wf.Cache = w.Fast, w.Cache
+		wf.M, wf.T = w.M.Clone(), w.T.Clone()
+		for k := range w.Universe {
+			wf.Universe[k] = true
+		}
+		if err := wf.Open(); err != nil {
+			break
+		}
+		// replay the uncommitted writes of the main handle on the fork
+		// (a fork starts from the durable state only)
+		dirty := !w.Clean()
+		if dirty {
+			wf.Cleanup()
+			// keep it simple: faults are only injected at steps that start clean
+			if v := w.Apply(s); v != nil {
+				out.Foreign = v
+				break
+			}
+			continue
+		}
+		wf.Sim.BeginStep(s.ID)
+		vf := wf.Apply(s)
+		counts := wf.Sim.Counts()
+		postM, postT := wf.M.Clone(), wf.T.Clone()
+		wf.Cleanup()
+		if vf != nil {
+			out.Foreign = vf
+			break
+		}
+		var armed []sim.Fault
+		for _, f := range fs {
+			if c := counts[f.Kind]; c > 0 {
+				armed = append(armed, sim.Fault{Step: s.ID, Kind: f.Kind, N: 1 + f.N*c/1000})
+			}
+		}
+		preM, preT := committedOnly(w.M, w.T)
+		w.Sim.ClearFired()
+		w.Sim.Arm(armed)
+		v := w.Apply(s)
+		fired := w.Sim.Fired()
+		w.Sim.Disarm()
+		out.Evals++
+		for _, f := range fired {
+			out.Faults[f.Fault.Kind]++
+		}
+		tr.Add(s.ID, len(armed), len(fired), v != nil)
+		if len(fired) == 0 {
+			if v != nil {
+				out.Foreign = v
+				break
+			}
+			continue
+		}
+		site := fired[0].Site
+		wrote := false
+		for _, f := range fired {
+			if !sim.ReadKinds[f.Fault.Kind] {
+				wrote = true
+			}
+		}
+		if v == nil {
+			// the step succeeded although a storage call failed: fine for reads that
+			// fell back correctly (the step oracle compared the result with the
+			// model), never for a failed write
+			if wrote && (s.Op == drv.OpSave || s.Op == drv.OpPrune || s.Op == drv.OpLVFO) {
+				out.Violations = append(out.Violations, mk(s, "C17.write-not-successful", "success-after-failed-write", site, "reported success although a storage write failed"))
+				break
+			}
+			continue
+		}
+		if v.Symptom == "panic" {
+			v.Prop, v.Oracle, v.Site = "C17", "C17.no-panic", site
+			v.Class = "history/" + s.Op
+			out.Violations = append(out.Violations, v)
+			break
+		}
+		if v.Symptom != "error-on-legal-request" && v.Symptom != "load-fails" {
+			// a wrong result presented as success
+			out.Violations = append(out.Violations, mk(s, "C17.read-error-or-same", "wrong-answer", site, v.Error()))
+			break
+		}
+		// the operation reported the failure: discard the handle, reopen, old or new
+		disk := w.Sim
+		w.Cleanup()
+		w2 := drv.NewWorld(p.Config)
+		w2.UseSim(disk)
+		w2.Fast, w2.Cache = w.Fast, w.Cache
+		for k := range w.Universe {
+			w2.Universe[k] = true
+		}
+		w2.M, w2.T = preM.Clone(), preT.Clone()
+		if err := w2.Open(); err != nil {
+			out.Violations = append(out.Violations, mk(s, "C17.reopen-old-or-new", "load-fails", site, fmt.Sprintf("reopening after the failed step: %v", err)))
+			w = w2
+			break
+		}
+		vOld := w2.Guard("C17", "C17.reopen-old-or-new", s.Op, func() *drv.Violation { return auditCrashState(w2) })
+		if vOld != nil {
+			nM, nT := committedOnly(postM, postT)
+			w2.M, w2.T = nM, nT
+			if vNew := w2.Guard("C17", "C17.reopen-old-or-new", s.Op, func() *drv.Violation { return auditCrashState(w2) }); vNew != nil {
+				cls := s.Op
+				if s.Op == drv.OpPrune {
+					cls = "prune"
+				}
+				vv := mk(s, "C17.reopen-old-or-new", "bad-state-after-reopen", site, fmt.Sprintf("neither the state before (%s) nor after (%s)", firstLine(vOld.Detail), firstLine(vNew.Detail)))
+				vv.Class = cls + "/" + fired[0].Fault.Kind
+				out.Violations = append(out.Violations, vv)
+				w = w2
+				break
+			}
+		}
+		w = w2
+	}
+	out.Stats["fault_positions"] = out.Evals
+	out.NonTrivial = len(out.Faults) > 0
+	out.Trace = fmt.Sprintf("%016x", tr.Sum())
+	return out
+}
+
 func execC17(p *drv.Plan) *Out {
+	if p.Mode == "history" {
+		return execC17History(p)
+	}
 	// split the plan into prefix history and probes
 	var prefix, probes []drv.Step
 	for _, s := range p.Steps {
